@@ -372,18 +372,21 @@ def dec_c40_automaton(f, rule, base, shift3):
     chname = None
     for m in T.exprs(b["body"], "Match"):
         fl = T.for_loop_parts(m)
-        if fl and T.pat_names(fl[1]) and T.pat_names(fl[1])[0].startswith("ch#"):
+        # the per-value loop: its variable is a single u8 binding (whatever it is called)
+        if fl and fl[1].get("k") == "Bind" and fl[1].get("ty") == "u8" and body is None:
             body = fl[2]
-            chname = T.pat_names(fl[1])[0]
+            chname = fl[1]["name"]
     need(body is not None, rule, fn, "(loop over the three values)")
     ps = [p["pat"]["name"] for p in b["params"]]
     shift_name = upper_name = None
     for st in b["body"]["stmts"]:
         if st["k"] == "Let" and st["pat"].get("k") == "Bind":
             n = st["pat"]["name"]
-            if n.startswith("shift#"):
+            init = T.strip(st.get("init") or {})
+            # the two state variables by role: `let mut <shift set> = 0`, `let mut <upper shift pending> = false`
+            if T.is_mut_binding(st["pat"]) and init.get("k") == "Lit" and init.get("int") == 0 and "bool" not in init and shift_name is None:
                 shift_name = n
-            if n.startswith("upper_shift#"):
+            if T.is_mut_binding(st["pat"]) and init.get("k") == "Lit" and init.get("bool") is False and upper_name is None:
                 upper_name = n
     need(shift_name and upper_name, rule, fn, "(shift / upper_shift state variables)")
     tab = {}
@@ -415,7 +418,7 @@ def _dec_parts_tables(f, rule):
     m = None
     for x in T.exprs(f.thir[fn]["body"], "Match"):
         s = T.strip(x["scrut"])
-        if s.get("k") == "Var" and s["name"].startswith("mode#"):
+        if s.get("k") == "Var" and str(s.get("ty", "")).endswith("EncodationType"):
             m = x
     need(m, rule, fn, "(match on mode)")
     rows, rest = T.enum_match_table(m, MODES)
@@ -537,14 +540,14 @@ def ascii_dec_table(f, rule):
         c = x["cond"]
         if c.get("k") == "Let" and any(T.canon(T.callee_of(k)).endswith("Reader::eat") for k in T.calls(c["expr"])):
             names = T.pat_names(c["pat"])
-            if names and names[0].startswith("ch#"):
+            if names and T._variant_pat(c["pat"]) and T._variant_pat(c["pat"])[0] == "Ok":
                 then = x["then"]
                 chname = names[0]
                 break
     need(then is not None, rule, fn, "(while let Ok(ch) = data.eat())")
     upper_name = None
     for st in b["body"]["stmts"]:
-        if st["k"] == "Let" and st["pat"].get("name", "").startswith("upper_shift#"):
+        if st["k"] == "Let" and st["pat"].get("k") == "Bind" and T.is_mut_binding(st["pat"]) and T.strip(st.get("init") or {}).get("bool") is False and upper_name is None:
             upper_name = st["pat"]["name"]
     need(upper_name, rule, fn, "(upper_shift)")
     ps = [p["pat"]["name"] for p in b["params"]]
